@@ -144,6 +144,14 @@ def _subsets(universe, rng_key):
     if len(u) >= 2:
         out.append(u[:-1] if rng_key % 2 else u[1:])
     out.append(u)
+    if len(u) >= 9:
+        # small sets of a wide universe (two to four elements, early and late ones), each through both entry points
+        n = len(u)
+        for j in range(4):
+            a = (rng_key * 7 + j * 3) % n
+            S = sorted({u[a], u[(a + 5 + j) % n], u[n - 1 - (j % 2)]} | ({u[(a + 8) % n]} if j % 2 else set()))
+            out.append(S)
+            out.append(S)
     return out
 
 
@@ -158,6 +166,12 @@ def run_session(case):
         rec = {"kind": "step", "op": op, "pre": pre, "out": out, "ne": ne, "alive": 1 if ds is not None else 0,
                "naming": case["naming"], "S": [], "p": 0, "q": 1}
         rec.update(extra)
+        # Ranking objects the caller obtained from the dataset BEFORE the call (dataset[i], iteration): they are values
+        # of their own and must keep agreeing with their own buckets whatever happens to the dataset afterwards
+        try:
+            rec["held"] = [observe_ranking(r, nm) for r in held]
+        except Exception as ex:
+            rec["held"] = [{"rk": [[0]], "pos": [0] * nm.ne, "dom": [], "nbe": -1, "len": -1}]
         if ds is not None:
             try:
                 rec["obs"] = observe_dataset(ds, nm)
@@ -172,6 +186,7 @@ def run_session(case):
         return rec
 
     given = None
+    held = []
     try:
         entry = case.get("entry", 0) % 7
         if entry == 1:
@@ -213,6 +228,9 @@ def run_session(case):
     if ds is not None:
         for op in case["ops"]:
             pre = _rk_of(ds, nm)
+            for r in list(ds.rankings)[:3] + ([ds[0]] if ds.nb_rankings else []):
+                if not any(r is h for h in held) and len(held) < 8:
+                    held.append(r)
             try:
                 if op["op"] == "remove_elements":
                     ds.remove_elements({_elem_of(ds, nm, x).value if op.get("raw") else _elem_of(ds, nm, x)
